@@ -18,6 +18,16 @@ def build_obs(case, scale=None):
         src = src * scale
     band = O.build_prim(case['band'])
     kw = {'force': case.get('force') or 'none'}
+    if case.get('prior_binset') is not None:
+        # an observation binned on a related grid (same number of bins, same end centres, other interior centres) was
+        # built and counted earlier in the process: nothing of it may carry over
+        try:
+            early = Observation(O.build_prim(case['src']), O.build_prim(case['band']),
+                                binset=np.array([O.fl(x) for x in case['prior_binset']]), force='extrap')
+            early.countrate(1.0)
+            early.countrate(1.0, binned=False)
+        except Exception:   # noqa
+            pass
     if case.get('binset') is not None:
         kw['binset'] = np.array([O.fl(x) for x in case['binset']])
     return Observation(src, band, **kw)
@@ -196,6 +206,15 @@ def gen_case(rng, K, nmax):
         binset, unit = None, 'AA_number'
     c = {'op': 'obs', 'const': K, 'src': src, 'band': band, 'force': rng.choice(['extrap', 'extrap', 'taper']),
          'binset': None if binset is None else qs(sorted(binset)), '_kind': kind, 'queries': []}
+    if c['binset'] is not None and len(c['binset']) >= 3 and rng.random() < 0.4:
+        bs = [unq(x) for x in c['binset']]
+        lo, hi, n = bs[0], bs[-1], len(bs)
+        even = [lo + (hi - lo) * F(i, n - 1) for i in range(n)]
+        if even == bs:      # the measured grid is even: the earlier one is graded
+            inner = sorted({lo + (hi - lo) * F(i * i, (n - 1) ** 2) for i in range(1, n - 1)})
+            even = [lo] + inner + [hi]
+        if len(even) == n and all(even[i] < even[i + 1] for i in range(n - 1)):
+            c['prior_binset'] = qs(even)
     area = q(10 ** rng.uniform(0, 6))
     if rng.random() < 0.5:
         c['k'] = q(rng.choice([F(1, 2), F(3), F(1, 1024), F(4096)]))
